@@ -7,33 +7,45 @@
 (* OnCallEnd is called), close_start (before Close is called).             *)
 (***************************************************************************)
 EXTENDS TraceIO, FiniteSets
-VARIABLES l, ccIdle, inCall, enters, exits, closing
-vars == <<l, ccIdle, inCall, enters, exits, closing>>
+VARIABLES l, ccIdle, inCall, enters, exits, closing,
+          inCb      \* "none" | "enter" | "exit": a ClientConn callback is in progress
+vars == <<l, ccIdle, inCall, enters, exits, closing, inCb>>
 
 Init == /\ l = 1 /\ ccIdle = TRUE /\ inCall = {} /\ enters = 0 /\ exits = 0 /\ closing = FALSE
-        /\ InitRegs
+        /\ inCb = "none" /\ InitRegs
 Ev == Trace[l]
 
 Reset == /\ Ev.ev = "reset"
          /\ ccIdle' = TRUE /\ inCall' = {} /\ enters' = 0 /\ exits' = 0 /\ closing' = FALSE
-CcExit == /\ Ev.ev = "cc_exit" /\ ccIdle' = FALSE /\ exits' = exits + 1
+         /\ inCb' = "none"
+\* cc_exit / cc_enter are logged when the callback BEGINS, cc_exit_end / cc_enter_end when it
+\* returns.  The channel has left idle mode when ExitIdleMode has returned; it is (entering) idle
+\* from the moment EnterIdleMode begins.  A callback that begins while another one is still in
+\* progress breaks the strict alternation of the two transitions.
+CcExit == /\ Ev.ev = "cc_exit" /\ exits' = exits + 1 /\ inCb' = "exit"
           /\ Mark(exits + 1 - enters \notin {0, 1}, "I_Alternate", l)
-          /\ UNCHANGED <<enters, inCall, closing>>
-CcEnter == /\ Ev.ev = "cc_enter" /\ ccIdle' = TRUE /\ enters' = enters + 1
+          /\ Mark(inCb # "none", "I_Alternate_overlap", l)
+          /\ UNCHANGED <<ccIdle, enters, inCall, closing>>
+CcExitEnd == /\ Ev.ev = "cc_exit_end" /\ ccIdle' = FALSE /\ inCb' = "none"
+             /\ UNCHANGED <<enters, exits, inCall, closing>>
+CcEnter == /\ Ev.ev = "cc_enter" /\ ccIdle' = TRUE /\ enters' = enters + 1 /\ inCb' = "enter"
            /\ Mark(inCall # {}, "I_NeverIdleUnderRPC", l)
            /\ Mark(exits - (enters + 1) \notin {0, 1}, "I_Alternate", l)
+           /\ Mark(inCb # "none", "I_Alternate_overlap", l)
            /\ UNCHANGED <<exits, inCall, closing>>
+CcEnterEnd == /\ Ev.ev = "cc_enter_end" /\ inCb' = "none"
+              /\ UNCHANGED <<ccIdle, enters, exits, inCall, closing>>
 BeginRet == /\ Ev.ev = "begin_ret"
             /\ inCall' = IF closing THEN inCall ELSE inCall \cup {Ev.r}
             /\ Mark(~closing /\ ccIdle, "I_BeginLeavesIdle", l)
-            /\ UNCHANGED <<ccIdle, enters, exits, closing>>
+            /\ UNCHANGED <<ccIdle, enters, exits, closing, inCb>>
 EndCall == /\ Ev.ev = "end_call" /\ inCall' = inCall \ {Ev.r}
-           /\ UNCHANGED <<ccIdle, enters, exits, closing>>
+           /\ UNCHANGED <<ccIdle, enters, exits, closing, inCb>>
 CloseStart == /\ Ev.ev = "close_start" /\ closing' = TRUE
-              /\ UNCHANGED <<ccIdle, inCall, enters, exits>>
+              /\ UNCHANGED <<ccIdle, inCall, enters, exits, inCb>>
 Other == /\ Ev.ev \in {"at", "quiescent", "stuck"}
-         /\ UNCHANGED <<ccIdle, inCall, enters, exits, closing>>
+         /\ UNCHANGED <<ccIdle, inCall, enters, exits, closing, inCb>>
 
 Next == /\ l <= TLen /\ l' = l + 1 /\ Consumed(l)
-        /\ (Reset \/ CcExit \/ CcEnter \/ BeginRet \/ EndCall \/ CloseStart \/ Other)
+        /\ (Reset \/ CcExit \/ CcExitEnd \/ CcEnter \/ CcEnterEnd \/ BeginRet \/ EndCall \/ CloseStart \/ Other)
 ====
